@@ -51,6 +51,40 @@ type directory struct {
 	failable bool
 	updates  []*dirUpdate               // refreshes run by harness threads (their fills are certainly installed once they return)
 	snapshot func() map[string][]string // the fill cache's content, read after the run
+	// spelling: how the directory and the identity provider write each user's address (model name -> address);
+	// nil = the model names themselves
+	spelling map[string]string
+}
+
+// c17Spelling: one address inside the provider's hosted domain, one outside it and written with capitals —
+// the directory lists it, and answers questions about it, exactly as the identity provider reports it.
+var c17Spelling = map[string]string{"u1": "u1@corp.test", "u2": "U2.Name@Partner.test"}
+
+func (d *directory) spell(u string) string {
+	if a, ok := d.spelling[u]; ok {
+		return a
+	}
+	return u
+}
+
+func (d *directory) unspell(a string) string {
+	for u, s := range d.spelling {
+		if s == a {
+			return u
+		}
+	}
+	return a
+}
+
+func (d *directory) spellAll(l []string) []string {
+	if l == nil || d.spelling == nil {
+		return l
+	}
+	out := make([]string, len(l))
+	for i, u := range l {
+		out[i] = d.spell(u)
+	}
+	return out
 }
 
 type dirUpdate struct {
@@ -229,10 +263,11 @@ func (d *directory) listRec(group string) (*dirFill, []string, error) {
 	case "notfound":
 		return f, nil, groups.ErrGroupNotFound
 	}
-	return f, f.Members, nil
+	return f, d.spellAll(f.Members), nil
 }
 
 func (d *directory) check(gs []string, user string) ([]string, error) {
+	user = d.unspell(user)
 	c := &dirCheck{User: user, Groups: append([]string(nil), gs...), Start: d.tick(), Thread: d.s.Cur().ID}
 	d.checks = append(d.checks, c)
 	d.s.Point("in-check")
@@ -632,7 +667,9 @@ func googleExecute(x *explore.Exec, sc googleScenario) (*directory, []*localObs,
 			if sc.RealAdmin {
 				creds = credFile
 			}
-			gp, err := authp.NewGoogleProvider(&authp.ProviderData{}, "", "", "admin@corp.test", creds)
+			// (sign-in restricted to the hosted domain corp.test; the directory's groups also hold outside addresses)
+			d.spelling = c17Spelling
+			gp, err := authp.NewGoogleProvider(&authp.ProviderData{}, "", "corp.test", "admin@corp.test", creds)
 			if err != nil {
 				panic(explore.HarnessError{Msg: err.Error()})
 			}
@@ -646,7 +683,9 @@ func googleExecute(x *explore.Exec, sc googleScenario) (*directory, []*localObs,
 			}
 			fc = groups.NewFillCache(gp.PopulateMembers, time.Minute)
 			gp.GroupsCache = fc
-			ask = func(user string, gs []string) ([]string, error) { return gp.ValidateGroupMembership(user, gs, "tok") }
+			ask = func(user string, gs []string) ([]string, error) {
+				return gp.ValidateGroupMembership(d.spell(user), gs, "tok")
+			}
 		}
 		loopGroups := map[string]bool{}
 		for _, g := range sc.Prefill {
@@ -657,6 +696,12 @@ func googleExecute(x *explore.Exec, sc googleScenario) (*directory, []*localObs,
 		}
 		d.snapshot = func() map[string][]string {
 			if sn := fc.VerifSnapshot(); sn.OK {
+				for g, l := range sn.Cache {
+					for i := range l {
+						l[i] = d.unspell(l[i])
+					}
+					sn.Cache[g] = l
+				}
 				return sn.Cache
 			}
 			return nil // (the cache's layout is not the one the accessor knows: the end-of-run oracle is skipped)
